@@ -26,7 +26,7 @@ func (s *Subscription) Cancel() error {
 	verifPoint("db.sub.cancel")
 
 	for key, sub := range c.subscriptions {
-		if sub.q == s.q {
+		if sub == s {
 			c.subscriptions = append(c.subscriptions[:key], c.subscriptions[key+1:]...)
 			close(s.Feed) // this close is guarded by the controllers subscriptionLock.
 			return nil
